@@ -403,8 +403,11 @@ class ServerBase:
 
             try:
                 outgoing[0].send((outgoing[1], outgoing[2]))
-            except (EOFError, ConnectionResetError):
-                self.handle_disconnect(outgoing[0])
+            except (EOFError, ConnectionResetError, BrokenPipeError):
+                # The main loop reads from the same connection and handles
+                # the disconnect when it sees it end. Doing it from this
+                # thread races with the main loop and, for a lost employee,
+                # shuts the node down from the thread the shutdown joins.
                 _logger.warning('Connection reset while sending message.')
                 continue
 
